@@ -515,6 +515,10 @@ func c06Cross(e *Env, archs []model.Arch, wr *rand.Rand, path, who string, wantM
 			if k == 0 {
 				from, until = now-a.R(), now
 			}
+			if k == 2 && id == len(lr.archs)-1 {
+				// a window reaching back to the seventies selects the coarsest archive
+				from, until = lr.wr.Int64N(1000000), now
+			}
 			if model.Floor(from, a.S) == model.Floor(until, a.S) {
 				e.Note("c06-degenerate-window-skipped")
 				continue
@@ -528,6 +532,11 @@ func c06Cross(e *Env, archs []model.Arch, wr *rand.Rand, path, who string, wantM
 			})
 			if pan != "" {
 				e.Violate("C06.interop-read", "whispertool Fetch panicked on the %s file: %s", who, pan)
+				return
+			}
+			if gerr == nil && gts != nil && werr != nil {
+				e.Violate("C06.interop-read", "%s file, window (now-%d, now-%d]: the reference reads a series (step %d, %d values), whispertool fails: %v",
+					who, now-from, now-until, gts.Step(), len(gts.Values()), werr)
 				return
 			}
 			if (gerr != nil) != (werr != nil) || (gts == nil) != (wts == nil) {
